@@ -140,6 +140,23 @@ def run(ctx):
             continue
         mname = rng.choice(["IOU", "DSC", "ASSD"])
         thr = rng.choice([0.0, 0.2, 0.5, 0.7]) if mname != "ASSD" else rng.choice([0.3, 1.0, 2.5, 10.0])
+        if rng.random() < 0.35:
+            # reference label VALUES are arbitrary (sparse, not 1..n): the labels given to unassigned predictions must avoid them
+            labs = [int(x) for x in np.unique(ref) if x]
+            new = sorted(rng.sample(range(1, 10), len(labs)))
+            ref = sum((np.where(ref == l, n, 0) for l, n in zip(labs, new)), np.zeros_like(ref)).astype(ref.dtype)
+        if rng.random() < 0.3:
+            # a threshold a hair on the failing side of an achieved single-candidate score (next float / 2e-6 relative), or exactly at it
+            try:
+                cs = impl_candidates(pred, ref, mname)
+            except Exception:  # noqa
+                cs = []
+            if cs:
+                v = rng.choice(cs)[0]
+                sign = -1.0 if mname == "ASSD" else 1.0
+                t2 = rng.choice([float(np.nextafter(v, v + sign)), v * (1 + sign * 2e-6), v])
+                if t2 >= 0:
+                    thr = t2
         cases.append((pred, ref, mname, thr))
     mod_in, mod_meta = [], []
     for pred, ref, mname, thr in cases:
